@@ -240,11 +240,40 @@ func main() {
 						}
 					}
 					for failAt := -1; failAt < len(cuts); failAt++ {
-						for partial := 0; partial <= 2; partial++ {
+						for partial := 0; partial <= 3; partial++ {
 							if failAt < 0 && partial > 0 {
 								continue
 							}
 							failAt, partial := failAt, partial
+							if failAt >= 0 {
+								// the destination fails once, accepting `partial` bytes; the caller then
+								// resends what was not accepted and carries on
+								t.Do(func() string { return fmt.Sprintf("CipherWriter n=%d writes=%v call %d short by error after %d byte(s), caller resumes", n, cuts, failAt, partial) }, func() *explore.Fail {
+									orig := fill(n, 1)
+									d := env.NewDst()
+									d.FailAt, d.Partial, d.Transient = failAt, partial, true
+									cw := wsutil.NewCipherWriter(d, key)
+									off := 0
+									for _, k := range cuts {
+										chunk := orig[off : off+k]
+										for len(chunk) > 0 {
+											m, err := cw.Write(chunk)
+											if m < 0 || m > len(chunk) {
+												return explore.Failf("write-count-out-of-range", "")
+											}
+											chunk = chunk[m:]
+											if err == nil && len(chunk) > 0 {
+												return explore.Failf("short-write-no-error", "")
+											}
+										}
+										off += k
+									}
+									if got, want := d.Bytes(), refmodel.XOR(orig, key, 0); !bytes.Equal(got, want) {
+										return explore.Failf("writer-xor-mismatch-after-short-write", "got %x want %x", got, want)
+									}
+									return nil
+								})
+							}
 							t.Do(func() string { return fmt.Sprintf("CipherWriter n=%d writes=%v failAt=%d partial=%d", n, cuts, failAt, partial) }, func() *explore.Fail {
 								orig := fill(n, 1)
 								d := env.NewDst()
